@@ -66,6 +66,8 @@ pub struct Cx<'g> {
     /// fuel expressions (manifest) of the `while` loops of this fn, consumed in source order
     pub fuels: Vec<String>,
     fuel_next: usize,
+    /// length of the array type a `let` annotation asks for (const-generic argument of the initialiser call)
+    pub array_len_hint: Option<String>,
 }
 
 impl<'g> Cx<'g> {
@@ -96,6 +98,7 @@ impl<'g> Cx<'g> {
             loop_stack: Vec::new(),
             fuels: Vec::new(),
             fuel_next: 0,
+            array_len_hint: None,
         }
     }
 
@@ -250,6 +253,9 @@ impl<'g> Cx<'g> {
     }
 
     /// payload of a normal / early return: `v` or `(self, v)`
+    pub fn payload_pub(&self, v: &str) -> String {
+        self.payload(v)
+    }
     fn payload(&self, v: &str) -> String {
         let mut comps: Vec<String> = Vec::new();
         if self.self_mode == SelfMode::Mut {
@@ -337,14 +343,13 @@ impl<'g> Cx<'g> {
     }
 
     fn result_tail_call(&mut self, e: &syn::Expr, stmts: &mut Vec<Stmt>) -> R<Doc> {
-        if self.self_mode == SelfMode::Mut || !self.mut_params.is_empty() {
-            return self.bail(e.span(), "tail call of a `Result` fn from a fn with `&mut` state is not supported");
+        // `fn f(..) -> Result<..> { g(..) }` is `Ok(g(..)?)` when the error types agree (checked by the `?` path)
+        if self.self_mode == SelfMode::Mut && self.self_dirty {
+            return self.bail(e.span(), "tail call of a `Result` fn after a mutation of `self` is not supported");
         }
-        let (term, info) = self.call_term(e, stmts)?;
-        match &info.ret {
-            Ty::Res(_, _) => Ok(Doc::atom(format!("Exec.tail ({})", term))),
-            _ => self.bail(e.span(), "expected a call of a `Result` fn in return position"),
-        }
+        let (v, _) = self.try_call(e, e.span(), false, stmts)?;
+        let p = self.payload_pub(&v);
+        Ok(Doc::atom(format!("pure {}", p)))
     }
 
     // ------------------------------------------------------------------ blocks and statements
@@ -506,6 +511,22 @@ impl<'g> Cx<'g> {
             Some(i) => return self.bail(i.expr.span(), "`let … else` is not supported"),
             None => return self.bail(l.span(), "`let` without initialiser is not supported"),
         };
+        // `let x: [T; LEN] = f(..)` : LEN is the const-generic argument of `f` (if it has one)
+        let mut hint: Option<String> = None;
+        if let syn::Pat::Type(pt) = &l.pat {
+            let mut t: &syn::Type = &pt.ty;
+            while let syn::Type::Reference(r) = t {
+                t = &r.elem;
+            }
+            if let syn::Type::Array(a) = t {
+                let mut tmp: Vec<Stmt> = Vec::new();
+                if let Ok((lt, _)) = self.expr(&a.len, Some(&Ty::usize()), &mut tmp) {
+                    if tmp.is_empty() {
+                        hint = Some(lt);
+                    }
+                }
+            }
+        }
         // `let x = &mut place;` : `x` is an alias of the place
         if let syn::Expr::Reference(r) = &**init {
             if r.mutability.is_some() {
@@ -523,7 +544,10 @@ impl<'g> Cx<'g> {
             }
         }
         // initialiser that diverges in an arm (`match … { _ => return … }`) is handled by expr()
-        let (v, t) = self.expr(init, annot.as_ref(), stmts)?;
+        self.array_len_hint = hint;
+        let r = self.expr(init, annot.as_ref(), stmts);
+        self.array_len_hint = None;
+        let (v, t) = r?;
         let ty = annot.unwrap_or(t);
         match pat {
             syn::Pat::Ident(pi) if pi.subpat.is_none() && pi.by_ref.is_none() => {
